@@ -118,6 +118,9 @@ FieldName(f) == IF Has(f, "Alias") THEN f.Alias
                        [] OTHER -> ""
 
 \* ------------------------------------------------------------------ schema of sources
+\* a schema is keyed by measurement; a measurement written with a database is another measurement than the one
+\* of the same name written without (key "db..name")
+SrcKey(src) == IF Has(src, "Database") THEN src.Database \o ".." \o src.Name ELSE src.Name
 EmptyCols == [fields |-> <<>>, tags |-> {}]
 
 \* the FieldMapper's CallType, as implemented by the harness (harness/suite_c12.go)
@@ -138,8 +141,8 @@ SubColType(sub, n, S, md) ==
 \* takes the first column of that name instead - FieldExprByName).
 SrcRefType(n, src, S, md) ==
   IF src.k = "Measurement"
-  THEN IF Has(src, "Name") /\ src.Name \in DOMAIN S
-       THEN LET m == S[src.Name] IN
+  THEN IF Has(src, "Name") /\ SrcKey(src) \in DOMAIN S
+       THEN LET m == S[SrcKey(src)] IN
             IF n \in DOMAIN m.fields THEN m.fields[n] ELSE IF n \in m.tags THEN "tag" ELSE ""
        ELSE ""
   ELSE LET sub == src.Statement
@@ -163,7 +166,7 @@ ExprType(e, srcs, S, md) ==
 
 SrcCols(src, S, md) ==
   IF src.k = "Measurement"
-  THEN IF Has(src, "Name") /\ src.Name \in DOMAIN S THEN S[src.Name] ELSE EmptyCols
+  THEN IF Has(src, "Name") /\ SrcKey(src) \in DOMAIN S THEN S[SrcKey(src)] ELSE EmptyCols
   ELSE LET sub == src.Statement
            ns == {FieldName(f) : f \in ToSet(FieldsOf(sub))}
        IN [fields |-> [n \in ns |-> SubColType(sub, n, S, md)], tags |-> SubDimNames(sub)]
@@ -345,7 +348,7 @@ DevPossible(stmt, S) ==
 
 \* ------------------------------------------------------------------ wire form of a schema
 \* <<[name, fields |-> <<[n, t]>>, tags |-> <<name>>]>>  (sequences only: survives JSON both ways)
-MeasOrder == <<"m1", "m2", "m3">>
+MeasOrder == <<"m1", "m2", "m3", "d1..m1", "d2..m1">>
 Wire(S) == LET ms == SelectSeq(MeasOrder, LAMBDA m : m \in DOMAIN S) IN
            [i \in DOMAIN ms |->
               LET fs == SortNames(DOMAIN S[ms[i]].fields) IN
